@@ -148,7 +148,7 @@ func pruneToFind
   requires 8 * len(index) <= 256
   ensures result != nil && len(*result) >= 1
 
-immutable HyperTree.hasher, HyperTree.hasherF, HyperTree.log, HyperTree.batchLoader, HyperTree.cache, HyperTree.cacheHeightLimit, HyperTree.defaultHashes by NewHyperTree, NewHyperTreeWithLogger, HyperTree.Close
+immutable HyperTree.hasher, HyperTree.hasherF, HyperTree.log, HyperTree.batchLoader, HyperTree.cache, HyperTree.store, HyperTree.cacheHeightLimit, HyperTree.defaultHashes by NewHyperTree, NewHyperTreeWithLogger, HyperTree.Close
 
 // an open hyper tree: built by NewHyperTree*, until Close
 define HyperOK(t) = t != nil && !isnil(t.hasher) && int(hashlen(t.hasher)) <= 256 && !isnil(t.log) && t.hasherF != nil && nonnil_fn(t.hasherF)
@@ -169,10 +169,29 @@ func HyperTree.Close
 
 // C09 bookkeeping: a rebuild re-derives the cache from the store as it is now
 // (that the rebuilt cache equals the cache of an uninterrupted run is C08's subject)
-func HyperTree.RebuildCache
-  modifies everything, rebuildSeenLoads
-  assumes rebuildSeenLoads == snapshotLoads
+// a tree that has not been closed
+define HyperLive(t) = t != nil && !isnil(t.store) && !isnil(t.cache) && !isnil(t.log)
 
+// ASSUMED (the rebuild pruning is not verified): it yields a non-empty operation stack
+func pruneToRebuild
+  modifies everything
+  assumes result != nil && len(*result) > 0
+
+// C08/C09, the loading phase of a rebuild: the tile table is read TO ITS END, every tile read is
+// put into the cache, and the reader is released. (What is then recomputed above the tiles is
+// the operation stack's, not verified.)
+func HyperTree.RebuildCache
+  props C08 C09
+  requires HyperLive(t)
+  may_panic
+  modifies everything, rebuildSeenLoads, openReaders, tilesRead, readerExhausted, cachePuts
+  ensures C08,C09/reads-to-the-end: readerExhausted
+  ensures C08/reader-released: openReaders == old(openReaders)
+  assumes rebuildSeenLoads == snapshotLoads
+  loop 1 modifies tiles[*], tilesRead, readerExhausted, cachePuts
+  loop 1 invariant C08,C09/every-tile-cached: cachePuts - old(cachePuts) == tilesRead - old(tilesRead)
+  loop 2 modifies cachePuts
+  loop 2 invariant C08,C09/every-tile-cached: cachePuts - old(cachePuts) == tilesRead - old(tilesRead) - n + i && 0 <= i && i <= n && n <= len(tiles)
 // ---- proofs --------------------------------------------------------------------
 
 func AuditPath.Get
